@@ -8,9 +8,10 @@ Local Open Scope Z_scope.
 
 (* every class text print_class can produce (all member spellings: raw, \], single-character
    escapes, \xNN, \uNNNN, \UNNNNNNNN, \NNN; \pX and \p{Name}; ranges; ^ and i) is read back as the
-   class it denotes, when an escaped rune is never the range operator (the grammar's reading) *)
+   class it denotes, when an escaped rune is never the range operator (the grammar's reading);
+   a raw '-' may be a member where the syntax makes it one: first, right after a range, or last *)
 Theorem C03_class_reader_recovers_denoted_class : forall items ic inv,
-  forallb item_ok items = true -> forallb dash_free items = true -> lead_ok items inv = true ->
+  forallb item_ok items = true -> dash_ok true items = true -> lead_ok items inv = true ->
   parse_class true (print_class items ic inv) =
   Some (mkClass (denote_chars items) (denote_ranges items) (denote_classes items) ic inv).
 Proof. exact parse_print_class. Qed.
@@ -19,16 +20,16 @@ Print Assumptions C03_class_reader_recovers_denoted_class.
 (* the hypotheses are satisfiable by a class using every kind of member and spelling,
    including an escaped hyphen between two members *)
 Example C03_hypotheses_inhabited :
-  let items := [IChar 97 SRaw; IChar 45 SHex; IChar 122 SU4; IRange 48 SOct 57 SU8; IUni [76; 117] true; IUni [78] false; IChar 93 SEsc; IChar 10 SEsc] in
-  forallb item_ok items = true /\ forallb dash_free items = true /\ lead_ok items false = true /\
+  let items := [IChar 45 SRaw; IChar 97 SRaw; IChar 45 SHex; IChar 122 SU4; IRange 48 SOct 57 SU8; IChar 45 SRaw; IUni [76; 117] true; IUni [78] false; IChar 93 SEsc; IChar 10 SEsc; IChar 45 SRaw] in
+  forallb item_ok items = true /\ dash_ok true items = true /\ lead_ok items false = true /\
   parse_class true (print_class items true false) =
-    Some (mkClass [97; 45; 122; 93; 10] [48; 57] [[76; 117]; [78]] true false).
+    Some (mkClass [45; 97; 45; 122; 45; 93; 10; 45] [48; 57] [[76; 117]; [78]] true false).
 Proof. vm_compute. repeat split; reflexivity. Qed.
 
 (* the reading that forgets which runes were escaped (the pinned tree) is refuted:
    [a\x2dz] denotes the three members a, -, z and is read as the range a-z *)
 Theorem C03_escaped_hyphen_refuted :
-  exists items, forallb item_ok items = true /\ forallb dash_free items = true /\ lead_ok items false = true /\
+  exists items, forallb item_ok items = true /\ dash_ok true items = true /\ lead_ok items false = true /\
     parse_class false (print_class items false false) <>
     Some (mkClass (denote_chars items) (denote_ranges items) (denote_classes items) false false).
 Proof. exists [IChar 97 SRaw; IChar 45 SHex; IChar 122 SRaw]. vm_compute. repeat split; try reflexivity. discriminate. Qed.
